@@ -162,8 +162,30 @@ class FuncFacts(object):
         if isinstance(e, ast.Call):
             f = e.func
             nm = f.attr if isinstance(f, ast.Attribute) else (f.id if isinstance(f, ast.Name) else None)
+            if isinstance(f, ast.Name):
+                # aliases: module-level bindings and imports local to the function
+                b = self.fi.module.bindings.get(f.id)
+                if isinstance(b, tuple) and b and b[0] == "from":
+                    nm = b[2]
+                for n2 in ast.walk(self.fi.node):
+                    if isinstance(n2, ast.ImportFrom):
+                        for al in n2.names:
+                            if (al.asname or al.name) == f.id:
+                                nm = al.name
+            shares = None
             if isinstance(f, ast.Call) and isinstance(f.func, ast.Name) and f.func.id == "type":
-                return {"fresh"}  # type(self)(...)
+                shares = True  # type(self)(...): a record constructor
+            elif nm in ("SeqRecord", "SeqFeature", "CompoundLocation"):
+                shares = True
+            elif nm == "CircularRecord":
+                shares = not (len(e.args) == 1 and not e.keywords)  # the one-argument copy path deep-copies (rule ctor.deepcopy)
+            if shares:
+                # a library constructor keeps the containers it is handed: the new object shares them with their owner
+                out = {"fresh"}
+                for a in list(e.args) + [k.value for k in e.keywords]:
+                    if isinstance(a, (ast.Attribute, ast.Name, ast.Subscript)) and not (isinstance(a, ast.Subscript) and isinstance(a.slice, ast.Slice)):
+                        out |= {x for x in self.prov(a, stack) if x != "fresh" and not x.startswith("global:")}
+                return out
             if nm in FRESH_CALLS:
                 return {"fresh"}
             if nm in PASS_THROUGH:
